@@ -236,7 +236,7 @@ def compare_all(run, cfg, cases, impl, tag):
             d = compare_parse(c, r, line, Full) if c["kind"] == "parse" else compare_prog(c, r, line, Full)
             dis.append({"case": c.get("text", c.get("spec")), "cst": c.get("cst"),
                         "differences": [{"what": w, "impl": a, "model": b} for w, a, b in (d or [("hash only", None, None)])[:3]]})
-    return len(suspects), dis
+    return len(suspects), dis, lines
 
 
 # --------------------------------------------------------------------------
@@ -370,8 +370,8 @@ def attribute(run, cases, results, problems_of, label):
 
 def check(run):
     thorough = run.tier == "thorough"
-    n_random = 12000 if thorough else 1500
-    n_prog = 4000 if thorough else 500
+    n_random = 12000 if thorough else 1000
+    n_prog = 4000 if thorough else 350
     depth = 4 if thorough else 3
     run.coverage["rule"] = (
         "parse trees of the 2.1 grammar: a systematic family (every propTest alternative x NOT x operator spelling x literal "
@@ -383,9 +383,15 @@ def check(run):
         "Model and implementation are compared on tree shape, visitor result or exception class, str(), tokens of str(), "
         "meaning of tree and object, and the re-parse.  A case is non-trivial when the visitor produced an object and the "
         "pattern has more than one comparison or a qualifier/parenthesis" % (n_random, depth, n_prog))
+    import time
+    t0 = time.time()
     with common.Lock():
+        t_lock = time.time() - t0
         res = common.build_props("Props/C10.v")
         run.add_build(res, "make -C coq Props/C10.vo (coqc 8.16.1, full .vo) + Print Assumptions per theorem")
+    timing = {"lock_wait_s": round(t_lock, 1), "build_s": round(time.time() - t0 - t_lock, 1)}
+    run.coverage["timing"] = timing
+    t1 = time.time()
     try:
         cfg = select_variant(run)
     except RuntimeError as e:
@@ -399,8 +405,10 @@ def check(run):
         cases.append(parse_case(tree))
     for f in FLAGS:
         cases.append(parse_case(WITNESS_TREE[f]))
+    n_fixed = len(cases)
     for tree in G.systematic():
         cases.append(parse_case(tree))
+    n_sys = len(cases) - n_fixed
     g = G.Gen(rng, depth, cfg=cfg, max_size=120 if thorough else 70)
     for i in range(n_random):
         cases.append(parse_case(g.pattern(), rng, 0.08 if i % 5 == 0 else 0.0))
@@ -411,15 +419,35 @@ def check(run):
         wg = i % 6 != 0
         cases.append({"kind": "prog", "spec": pg.obj(wg), "wg": wg, "version": "2.1"})
 
+    timing["variant_s"] = round(time.time() - t1, 1)
+    t1 = time.time()
     impl = common.run_impl("c10_impl", cases)
+    timing["impl_s"] = round(time.time() - t1, 1)
+    t1 = time.time()
 
     # ---- model
-    dis, ndis = [], 0
+    dis, ndis, lines = [], 0, None
     hist = {"parse": 0, "prog": 0, "visitor_ok": 0, "visitor_exc": 0, "invalid_text": 0, "out_of_scope": 0, "prog_not_well_grouped": 0}
     try:
-        ndis, dis = compare_all(run, cfg, cases, impl, "c10")
+        ndis, dis, lines = compare_all(run, cfg, cases, impl, "c10")
     except RuntimeError as e:
         run.broken.append(Broken("correspondence", "model evaluation failed", {"error": str(e)[-1500:]}))
+    timing["model_s"] = round(time.time() - t1, 1)
+    # ---- the 2.0 grammar of the installed parser (= the 2.1 grammar without EXISTS): the same trees through
+    #      create_pattern_object(..., version="2.0"), compared with the same model lines and the same oracle
+    idx20 = [i for i, c in enumerate(cases) if c["kind"] == "parse" and i < n_fixed + n_sys
+             and "C10-exists-unhandled" not in G.features(c["cst"])]
+    cases20 = [dict(cases[i], version="2.0") for i in idx20]
+    impl20 = common.run_impl("c10_impl", cases20)
+    dis20 = []
+    if lines is not None:
+        for i, c2, r2 in zip(idx20, cases20, impl20):
+            d = compare_parse(c2, r2, lines[i], Hashed)
+            if d:
+                dis20.append({"case": c2["text"], "version": "2.0", "differences": [w for w, _, _ in d[:3]]})
+    run.coverage["correspondence_cases_2_0"] = len(cases20)
+    if dis20:
+        run.broken.append(Broken("correspondence", "2.0 parser/visitor vs the model", {"count": len(dis20), "first": dis20[:4]}))
     for c, r in zip(cases, impl):
         hist[c["kind"]] += 1
         ok = (r.get("ast") or "").startswith("OK ")
@@ -440,17 +468,19 @@ def check(run):
     if ndis:
         run.broken.append(Broken("correspondence", "Model/PatternSyntax.v vs stix2.pattern_visitor / stix2.patterns / the ANTLR parser",
                                  {"count": ndis, "first": [{k: v for k, v in x.items() if k != "cst"} for x in dis[:4]]}))
-    dup_ok = []
-    for c, r in zip(cases, impl):
-        if c["kind"] == "parse" and not r.get("valid_in") and r.get("tree") is None:
-            dup_ok.append(c["text"])
-    if dup_ok:
+    rejected = [c["text"] for c, r in zip(cases, impl) if c["kind"] == "parse" and r.get("tree") is None]
+    if rejected:     # a generated tree whose text the real parser refuses: the datatype is not the grammar
         run.broken.append(Broken("correspondence", "generated parse trees whose text the real parser rejects",
-                                 {"count": len(dup_ok), "first": dup_ok[:3]}))
+                                 {"count": len(rejected), "first": rejected[:3]}))
 
     # ---- oracle
     problems = [oracle_parse(c, r) if c["kind"] == "parse" else oracle_prog(c, r) for c, r in zip(cases, impl)]
     by_class = attribute(run, cases, impl, problems, "pattern")
+    problems20 = [oracle_parse(c, r) for c, r in zip(cases20, impl20)]
+    by_class20 = attribute(run, cases20, impl20, problems20, "pattern (2.0 grammar)")
+    run.coverage["oracle_failures_by_class_2_0"] = by_class20
+    # smallest failing input first (the first five distinct ones are printed)
+    run.violations.sort(key=lambda v: len(json.dumps(v.replay.get("case", {}).get("text") or v.replay.get("case", {}).get("spec") or "")))
     run.coverage["oracle_failures_by_class"] = by_class
     # variant flags: the witness of a defective flag must have been reported
     for f in FLAGS:
